@@ -93,8 +93,43 @@ func (w *World) RunCase(n int, q Q, r *rand.Rand, bigLen int) Line {
 	}
 	host := hostOf(svc)
 	sess := forge(q, host, r)
-	sealed := px.P.Seal(sess)
 	sv := map[string]string{"user": sess.User, "email": sess.Email, "groups": strings.Join(sess.Groups, ","), "token": sess.AccessToken}
+	// "equal to the authenticated session's values" - the session IN FORCE: every fourth authenticated request arrives
+	// when a refresh or a revalidation is due, and the authenticator rotates the token / reports the current groups;
+	// what the upstream is told must be what the re-issued cookie says, not what the presented one said
+	svNow := map[string]string{}
+	for k, v := range sv {
+		svNow[k] = v
+	}
+	dueNote := ""
+	if q.Mode == "auth" && r.Intn(4) == 0 {
+		if sess.AccessToken == "" {
+			// (every session has its own tokens: checks of different sessions are never merged into one call - what
+			// merged callers end up with is C16's subject, recorded there)
+			sess.AccessToken = fmt.Sprintf("at-%08x%08x", r.Uint32(), r.Uint32())
+			sv["token"], svNow["token"] = sess.AccessToken, sess.AccessToken
+			q.Sess.Tok = true
+		}
+		if r.Intn(2) == 0 {
+			sess.RefreshDeadline = time.Now().Add(-time.Hour)
+			svNow["token"] = rotatedToken
+			q.Sess.Tok = true
+			dueNote = "refresh due: the authenticator rotates the access token"
+		} else {
+			sess.ValidDeadline = time.Now().Add(-time.Minute)
+			dueNote = "revalidation due"
+		}
+		if strings.HasPrefix(svc, "p1") {
+			svNow["groups"] = rotatedGroup // these upstreams have a group rule: the provider reports the current groups
+			q.Sess.Groups = true
+			dueNote += "; the authenticator reports the user's current groups"
+		} else {
+			svNow["groups"] = "" // no group rule: a check leaves the session with the (empty) list of matched groups
+			q.Sess.Groups = false
+			dueNote += "; no group rule, the checked session carries no groups"
+		}
+	}
+	sealed := px.P.Seal(sess)
 
 	var lines []HdrLine
 	clientVals := map[string]map[string]bool{}
@@ -147,6 +182,10 @@ func (w *World) RunCase(n int, q Q, r *rand.Rand, bigLen int) Line {
 
 	conc := &Conc{Host: host, Method: m, Target: tgt, Lines: append(lines, HdrLine{"Connection", conn}), Cookies: sent, BodyLen: len(b), Chunks: chunks, Status: status,
 		Session: map[string]interface{}{"user": sess.User, "email": sess.Email, "groups": sess.Groups, "access_token": sess.AccessToken}}
+	if dueNote != "" {
+		conc.Note = dueNote + " "
+		conc.Session.(map[string]interface{})["in_force_after_the_check"] = svNow
+	}
 	if len(chunks) > 12 {
 		conc.Chunks = chunks[:12]
 	}
@@ -177,7 +216,7 @@ func (w *World) RunCase(n int, q Q, r *rand.Rand, bigLen int) Line {
 			switch {
 			case v == "":
 				out = append(out, "E")
-			case q.Mode == "auth" && v == sv[h]:
+			case q.Mode == "auth" && v == svNow[h]:
 				out = append(out, "S")
 			case q.Inject == h && v == injectedValue[h]:
 				out = append(out, "I")
